@@ -4,6 +4,7 @@
 //     (upgrade pack/unpack/IsZero, limit normalisation, cursor arithmetic, ...);
 //   - facts: constants and small structural facts the theorems mention (tag bytes, case
 //     numbers, thresholds, size overheads, presence of decoder hardening, ...).
+//
 // A fragment that is missing or no longer has a translatable shape is reported on stderr as
 // "UNTRANSLATABLE <fragment>: <why>" and the program exits 3 (a broken tie, never ignored).
 package main
